@@ -168,3 +168,48 @@ func H_C09_concurrent() {
 	}
 	vReach("end")
 }
+
+//verif:witness H_C09_history end
+//verif:bound C09 all history independence: a key and a value with one arbitrary byte each are escaped through the JSON or text encoder, then 0, 1, 300 or 1100 other distinct keys and values (some needing escapes), then the first pair again: the second rendering equals the first and decodes to the sanitised input
+func H_C09_history() {
+	vOpt("loop", 4000)
+	k := "k" + vString("key", 1)
+	v := "v" + vString("val", 1)
+	text := vChoose("encoder", 2) == 1
+	render := func(k, v string) []byte {
+		var buf bytes.Buffer
+		if text {
+			enc := NewTextEncoder(&buf, "||")
+			enc.AppendEncoderBegin()
+			enc.AppendKey(k)
+			enc.AppendString(v)
+			enc.AppendEncoderEnd()
+		} else {
+			enc := NewJSONEncoder(&buf)
+			enc.AppendEncoderBegin()
+			enc.AppendKey(k)
+			enc.AppendString(v)
+			enc.AppendEncoderEnd()
+		}
+		return append([]byte(nil), buf.Bytes()...)
+	}
+	first := render(k, v)
+	n := [4]int{0, 1, 300, 1100}[vChoose("others", 4)]
+	for i := 0; i < n; i++ {
+		d := string([]byte{byte('0' + i%10), byte('a' + (i/10)%26), byte('A' + (i/260)%26)})
+		render("other\n"+d, "val\x1b"+d)
+	}
+	again := render(k, v)
+	vAssert(vBytesEqual(first, again), "escaping-does-not-depend-on-what-was-escaped-before")
+	if !text {
+		// {"k?":"v?"}
+		wantK, wantV := vSanitize([]byte(k)), vSanitize([]byte(v))
+		p := &vJP{b: again, ok: true}
+		got := p.value(0)
+		vAssert(p.ok && got != nil && got.kind == 'o' && len(got.vals) == 1, "valid-json-object")
+		if p.ok && got != nil && got.kind == 'o' && len(got.vals) == 1 {
+			vAssert(vEqualCPs(got.keys[0], wantK) && vEqualCPs(got.vals[0].s, wantV), "decodes-to-sanitised-input-after-any-history")
+		}
+	}
+	vReach("end")
+}
